@@ -61,6 +61,14 @@ def jobs(tier):
                   prog2=prog((K_WALKK, 0)), **U))
     J.append(conc("1,0,0,0" if q else "2,0,0,0", workers=16, hmap=2, init=2, ninit=1, init_keys=0, prog0=prog((K_ADDU, 0)),
                   prog1=prog((K_ADDR, 0)), prog2=prog((K_RESIZE, 4)), prog3=prog((K_WALKK, 0), (K_WALKALL, 0)), **U))
+    # one unique-key operation against one explicit resize (grow and shrink from 1, 2 and 4 buckets), two threads only
+    for hm, init in ((1, 1), (2, 2), (4, 4)):
+        J.append(conc("2,0,0,0", hmap=hm, init=init, ninit=1, init_keys=0, enum=2, enum2=4, nenum=2, nops=1, **U))
+    # partitioned resize with four helper threads (4 CPUs) under unique adds / lookups of present and absent keys
+    for tgt, init in ((8, 1), (1, 8)):
+        J.append(Job("lfht", "conc", "0,0,0,0,0" if q else "1,0,0,0,0", dict(hmap=1, init=init, min_partition_order=0, ninit=2, init_keys=0x70,
+                     prog0=prog((K_RESIZE, tgt)), prog1=prog((K_LOOKUP, 7), (K_ADDU, 7), (K_ADDU, 6)), **U), {"VRT_NCPUS": 4}, workers=8,
+                     deadline=None if q else 600))
     for b, env in REAL:
         J.append(conc_real(b, env, "2,0,0,0", hmap=0, enum=2, nenum=2, nops=1, ninit=1, init_keys=0, **U))
         J.append(conc_real(b, env, "1,0,0,0" if q else "2,0,0,0", workers=16, hmap=0, enum=2, nenum=2, nops=1, ninit=2, init_keys=0x01,
